@@ -17,9 +17,9 @@ CONFIGS = {
                  ("MCF_reads1.cfg", "MCF.tla", 900, "complete"), ("MCF_tick.cfg", "MCF.tla", 1200, "complete"),
                  ("MCF_xfer_probe.cfg", "MCF.tla", 300, "probe"), ("MCF_flow_probe.cfg", "MCF.tla", 300, "probe"),
                  ("MCF_reads_probe.cfg", "MCF.tla", 300, "probe"), ("MCF_tick_probe.cfg", "MCF.tla", 300, "probe"),
-                 ("MCF_snap_probe.cfg", "MCF.tla", 900, "probe"),
-                 ("MC2_sync.cfg", "MC2.tla", 400, "box"), ("MC3_sync.cfg", "MC3.tla", 400, "box"), ("MC3_async.cfg", "MC3.tla", 400, "box"),
-                 ("MCF_reads.cfg", "MCF.tla", 400, "box"), ("MCF_conf.cfg", "MCF.tla", 400, "box"), ("MCF_snap.cfg", "MCF.tla", 400, "box")],
+                 ("MCF_snap_probe.cfg", "MCF.tla", 600, "probe"),
+                 ("MC2_sync.cfg", "MC2.tla", 240, "box"), ("MC3_sync.cfg", "MC3.tla", 240, "box"), ("MC3_async.cfg", "MC3.tla", 240, "box"),
+                 ("MCF_reads.cfg", "MCF.tla", 240, "box"), ("MCF_conf.cfg", "MCF.tla", 300, "box"), ("MCF_snap.cfg", "MCF.tla", 300, "box")],
 }
 
 
